@@ -70,7 +70,7 @@ def r1_family(ctx):
       if isinstance(t, ast.Tuple) and len(t.elts) == 3:
         setups.append(([e.id for e in t.elts], n.value))
   if len(setups) != 2:
-    raise index.AnalysisError(f'{f.fq}: expected two _setup_validation_interpreter triples, found {len(setups)}')
+    raise index.AnalysisError(f'{R}: {f.fq}: expected two _setup_validation_interpreter triples, found {len(setups)} (the construction rules C18.R1 / R3 cannot read it; the validation simulation C18.R9 decides)')
   fam = {}
   sig_key, sample = _signature_loops(f)
   for names, call in setups:
@@ -383,6 +383,45 @@ def r9_validation_simulation(ctx, R='C18.R9'):
                   f'expected {({n: float(want[n]) for n in names})}: the mean over the {len(SIG[key]["samples"])} samples of this signature of metric(target, reference)')
 
 
+
+def r11_metric_table(ctx, R='C18.R11'):
+  """The two metrics run on small exact arrays (the NaN / size preprocessing is replaced by a flattening stand-in):
+  MSE = mean((a - b)^2); median ratio = median(|a - b| / (|b| + eps)) - the SECOND argument normalises."""
+  import fractions  # pylint: disable=g-import-not-at-top
+  from sa import absint  # pylint: disable=g-import-not-at-top
+  from sa.ndarr import NdArr  # pylint: disable=g-import-not-at-top
+  rs = ctx.rule(R, 'metric table: MSE = mean((a-b)^2), median ratio = median(|a-b| / (|b| + eps)) on small exact arrays', floor=2)
+  F = fractions.Fraction
+  VU = 'utils.validation_utils'
+  flat = lambda x: x.reshape((-1,)) if isinstance(x, NdArr) else NdArr.from_nested(x).reshape((-1,))
+  it = absint.Interp(ctx.repo, ctx.ev, hooks={f'{VU}:_preprocess_same_size_arrays': lambda a, k: (flat(a[0]), flat(a[1]))})
+  mse = ctx.repo.func(f'{VU}:mean_squared_difference')
+  mdr = ctx.repo.func(f'{VU}:median_diff_ratio')
+  ctx.instance(R, 2)
+  rs.exhaustive = True
+  rows = [([1, 2, 3], [1, 2, 3]), ([1, 2, 3], [3, 2, 7]), ([4, -2], [1, 1]), ([0, 0, 10, -4], [2, -8, 5, 1]), ([[1, 5], [2, 0]], [[3, 5], [-2, 4]])]
+  for a, b in rows:
+    A, B = NdArr.from_nested(a), NdArr.from_nested(b)
+    fa, fb = flat(A).data, flat(B).data
+    want = F(sum((x - y) ** 2 for x, y in zip(fa, fb)), len(fa))
+    o = it.outcomes(mse, [A, B], copy_args=False)
+    got = o[0].value if len(o) == 1 and o[0].kind == 'return' else None
+    if got is None or not absint._is_num(got):  # pylint: disable=protected-access
+      ctx.check(R, False, mse.node, mse, f'mse({a}, {b})', f'not decided: {[x.short()[:80] for x in o]}')
+    else:
+      ctx.check(R, abs(F(got) - want) <= F(1, 10 ** 9), mse.node, mse, f'mse({a}, {b}) = {float(got):.6g}', f'the mean squared difference must be {float(want):.6g}')
+    eps = F(1, 1000)
+    ratios = sorted(abs(x - y) / (abs(y) + eps) for x, y in zip(fa, fb))
+    mid = len(ratios) // 2
+    wantr = ratios[mid] if len(ratios) % 2 else (ratios[mid - 1] + ratios[mid]) / 2
+    o = it.outcomes(mdr, [A, B, eps], copy_args=False)
+    got = o[0].value if len(o) == 1 and o[0].kind == 'return' else None
+    if got is None or not absint._is_num(got):  # pylint: disable=protected-access
+      ctx.check(R, False, mdr.node, mdr, f'median_diff_ratio({a}, {b})', f'not decided: {[x.short()[:80] for x in o]}')
+    else:
+      ctx.check(R, abs(F(got) - wantr) <= F(1, 10 ** 9), mdr.node, mdr, f'median_diff_ratio({a}, {b}, eps=0.001) = {float(got):.6g}',
+                f'the median of |a - b| / (|b| + eps) is {float(wantr):.6g}: the SECOND argument (the reference) normalises')
+
 def run(ctx):
   f, fam, results = r1_family(ctx)
   r2_pop_partition(ctx)
@@ -390,6 +429,7 @@ def run(ctx):
   r6_subgraph_index(ctx)
   r7_metrics(ctx)
   r9_validation_simulation(ctx)
+  r11_metric_table(ctx)
   from sa.rules import c10  # pylint: disable=g-import-not-at-top
   c10.r9_signature_subgraph_table(ctx, 'C18.R10')
   shared.rule_single_traversal(ctx, 'C18.R8', ['quantizer:Quantizer.validate', 'model_validator:compare_model'])
